@@ -1,7 +1,7 @@
 (* StepsEncode.v — what the model's encode step observes, and the one-step facts for C04 (encode part),
    C05, C06, C07, C08, C16. *)
 Require Import Base Crc Bitfield Headers Encode Decode Process Ops Spec Judge.
-Require Import BitfieldFacts HeaderFacts PecFacts EncodeFacts DecodeFacts Hist StepsSimple.
+Require Import BitfieldFacts HeaderFacts HeaderForms PecFacts EncodeFacts DecodeFacts Hist StepsSimple.
 Open Scope N_scope.
 
 (* the observation of an encode step, by cases on the message the call stands for *)
@@ -97,10 +97,32 @@ Ltac not_success x Hx :=
   destruct x as [?| | | |[?|] ?| | | |]; try apply good_triv; exfalso; eapply Hx; reflexivity.
 
 (* ---------- C05 ---------- *)
+Ltac not_what_10_11 what :=
+  destruct what as [|p]; [apply good_triv|];
+  do 4 (destruct p as [p|p|]; try apply good_triv).
+
+Lemma c05_hdr_ok ovf g s c what fld raw v :
+  good (c05_step g s (OHdr what fld raw v) (snd (step ovf c (OHdr what fld raw v)))) = true.
+Proof.
+  destruct (N.eq_dec what 10) as [->|Hn].
+  - cbn [step snd hdr_op c05_step].
+    destruct (fld <? 256) eqn:Ef; [|apply good_triv]. destruct (v <? 256) eqn:Ev; [|apply good_triv].
+    cbn [andb]. apply good_of. apply N.ltb_lt in Ef, Ev.
+    rewrite HeaderForms.transport_header_closed by assumption. apply list_eqb_refl.
+  - cbn [step snd]. unfold c05_step.
+    destruct what as [|p]; [apply good_triv|].
+    destruct p as [p|p|]; try apply good_triv.
+    destruct p as [p|p|]; try apply good_triv.
+    destruct p as [p|p|]; try apply good_triv.
+    destruct p as [p|p|]; try apply good_triv.
+    exfalso. apply Hn. reflexivity.
+Qed.
+
 Lemma c05_step_ok ovf g s c o : wf_cfg g -> cinv g c -> oinv ovf s c -> wf_op o ->
   good (c05_step g s o (snd (step ovf c o))) = true.
 Proof.
-  intros Hg Hc Ho Hw. destruct o as [| | | | |h id a ls buf| |]; try apply good_triv.
+  intros Hg Hc Ho Hw. destruct o as [| | | | |h id a ls buf|what fld raw v|]; try apply good_triv.
+  2: apply c05_hdr_ok.
   destruct Hw as [Hok Hb].
   pose proof (step_encode_obs ovf g c h id a ls buf Hg Hc Hok) as S. cbv zeta in S.
   unfold c05_step. rewrite (oinv_eid _ _ _ Ho).
@@ -455,10 +477,28 @@ Lemma nth_firstn_lt (l : list N) k i : (i < k)%nat -> nth i (firstn k l) 0 = nth
 Proof. revert l i. induction k as [|k IH]; intros l i H; [lia|]. destruct l as [|x l]; [destruct i; reflexivity|].
   destruct i; [reflexivity|]. cbn [firstn nth]. apply IH. lia. Qed.
 
+Lemma c04_hdr_ok ovf g s c what fld raw v :
+  s_o (c04_step g s (OHdr what fld raw v) (snd (step ovf c (OHdr what fld raw v)))) = true.
+Proof.
+  destruct (N.eq_dec what 11) as [->|Hn].
+  - cbn [step snd hdr_op c04_step].
+    destruct (fld <? 256) eqn:Ef; [|reflexivity]. destruct (v <? 256) eqn:Ev; [|reflexivity].
+    cbn [andb sv_of s_o]. apply N.ltb_lt in Ef, Ev.
+    rewrite HeaderForms.smbus_header_closed by assumption. apply list_eqb_refl.
+  - cbn [step snd]. unfold c04_step.
+    destruct what as [|p]; [reflexivity|].
+    destruct p as [p|p|]; try reflexivity.
+    destruct p as [p|p|]; try reflexivity.
+    destruct p as [p|p|]; try reflexivity.
+    destruct p as [p|p|]; try reflexivity.
+    exfalso. apply Hn. reflexivity.
+Qed.
+
 Lemma c04_step_ok ovf g s c o : wf_cfg g -> cinv g c -> oinv ovf s c -> wf_op o ->
   good (sv_and (c04_step g s o (snd (step ovf c o))) (c04_oversize s o (snd (step ovf c o)))) = true.
 Proof.
-  intros Hg Hc Ho Hw. destruct o as [| |p| | |h id a ls buf| |]; try (apply good_and; reflexivity).
+  intros Hg Hc Ho Hw. destruct o as [| |p| | |h id a ls buf|what fld raw v|]; try (apply good_and; reflexivity).
+  3: { apply good_and; [|reflexivity]. apply c04_hdr_ok. }
   - (* the length probe on a prefix of the last encoded packet *)
     apply good_and; [|reflexivity]. cbn [step snd c04_step]. cbn in Hw. rewrite (get_length_closed p Hw).
     destruct (os_last_enc s) as [[[o' n] out]|] eqn:El.
